@@ -3,12 +3,23 @@
 The reported number is a sum of independently computed terms; each term is
 decided against its own ground truth:
 
-docstring_start   (t1) TopLevelVisitor._find_docstr_startpos_workaround on a
-                  SYMBOLIC source: indentation, string prefix (every valid
-                  docstring prefix), quote style, text on the opening line,
-                  text before the closing quotes, a trailing comment (may hold
-                  the other quote style), number of lines of the literal: the
-                  returned start is the line of the opening quotes.
+docstring_start   (t1) TopLevelVisitor._docnode_line_workaround on a SYMBOLIC
+                  source and the node the CPython parser hands over for it
+                  (lineno / end_lineno of the literal, an input): indentation,
+                  string prefix (every valid docstring prefix), quote style,
+                  text on the opening line, text before the closing quotes, a
+                  trailing comment (may hold the other quote style), number of
+                  lines of the literal, number of ESCAPED newlines in the value
+                  (non-raw prefixes), 0..2 lines above the function (statement,
+                  one-line triple-quoted string, comment): the returned pair is
+                  the line of the opening quotes and the line of the closing
+                  quotes, and nothing is raised.
+file_lines        (t1..t4 end to end, kind III) a module skeleton (container,
+                  lines above, prefix, quotes, opening line shared or not, body
+                  lines from a menu that includes escaped newlines and backslash
+                  continuations) is written to a real file and collected by the
+                  real static pipeline: for every part, the file line at
+                  DocTest.lineno + line_offset IS the part's first source line.
 freeform_offset   (t3) parse_freeform_docstr_examples on the parser's output as
                   a symbolic sequence of text / doctest parts whose LINE COUNTS
                   are unbounded solver integers (text, text ending in a skip
@@ -30,13 +41,15 @@ from .common import Harness, zbool, instrumented
 
 PROPERTY = 'C08'
 PREFIXES = ['', 'r', 'R', 'u', 'U']
+# lines above the function: a statement, a one-line triple-quoted string in the literal's own style (Q), a comment
+ABOVE = ['x = 1', 'Q other Q', '# c']
 MENU = ['', 'Example:', 'Args:', '    x (int): prose', 'prose text', '    >>> a = 1', '    >>> print(a)', '    1', '>>> b = 2', 'Ignore:', 'Script:', '    2']
-BOUNDS = {'quick': 'docstring_start: literal of 1..2 lines, indent 0 or 4, texts <=1 char; freeform_offset: 4 elements with unbounded line counts; offsets_real: 3 lines from a menu of %d; failure_offset: as C09 quick' % len(MENU),
-          'thorough': 'docstring_start: 1..3 lines, texts <=2; freeform_offset: 5 elements; offsets_real: 4 lines'}
-OUTSIDE = ('text -> AST (CPython parser: end_lineno of the docstring node is an input here); docstrings whose value has a different number of newlines than the literal has lines '
-           '(escapes like \\\\n in a non-raw docstring, backslash continuations); decorators / _workaround_func_lineno')
-ASSUMPTIONS = ['the number of newline characters in the docstring value equals the number of line breaks inside the literal (raw or escape-free docstring)',
-               'the texts around the quotes do not contain the literal\'s own quote style (it would end the literal)']
+BOUNDS = {'quick': 'docstring_start: literal of 1..2 lines, 0..2 escaped newlines, 0..2 lines above, indent 0 or 4, texts <=1 char; file_lines: 3 body lines from a menu of 7; freeform_offset: 4 elements with unbounded line counts; offsets_real: 3 lines from a menu of %d; failure_offset: as C09 quick' % len(MENU),
+          'thorough': 'docstring_start: 1..3 lines, texts <=2; file_lines: 4 body lines; freeform_offset: 5 elements; offsets_real: 4 lines'}
+OUTSIDE = ('docstring_start: text -> AST (CPython parser: lineno / end_lineno of the docstring node are inputs; file_lines uses the real parser); the PyPy / pre-3.8 branches of the workaround '
+           '(unreachable on this interpreter); more than 2 escaped newlines; file_lines: only the menu lines, one docstring per module')
+ASSUMPTIONS = ['the texts around the quotes do not contain the literal\'s own quote style (it would end the literal)',
+               'docstring_start: the node carries lineno = line of the opening quotes and end_lineno = line of the closing quotes (CPython >= 3.8 contract)']
 
 
 def jobs(tier):
@@ -49,19 +62,39 @@ def jobs(tier):
              'bounds': '%d elements; want and text line counts unbounded integers, 1..2 source lines per part' % (4 if q else 5)},
             {'ob': 'offsets_real', 'harness': 'real', 'k': 3 if q else 4, 'splits': [2, 4, 6, 8], 'query_timeout_s': 60,
              'bounds': '%d lines from a menu of %d, styles auto/google/freeform' % (3 if q else 4, len(MENU))},
+            {'ob': 'file_lines', 'harness': 'file', 'k': 3 if q else 4, 'splits': [2, 4, 6, 8], 'query_timeout_s': 60,
+             'bounds': 'docstring body of %d lines from a menu of %d (blank, prose, prose with an escaped newline, prose with a backslash continuation, statement, statement with want, google header), function / method / decorated function, 0 or 2 lines above, raw or plain prefix, both quote styles, opening line shared or not, styles auto/google/freeform' % (3 if q else 4, len(FMENU))},
             dict(j9, ob='failure_offset', harness='fail')]
 
 
-class FakeDoc:
-    def __init__(self, n):
-        self.n = n
+class FakeDoc(str):
+    """the docstring VALUE: only its number of newline characters matters"""
+    def __new__(cls, n):
+        o = str.__new__(cls, '')
+        o.n = n
+        return o
 
     def count(self, ch):
         return self.n
 
 
+class FakeConst:
+    def __init__(self, v):
+        self.value = v
+        self.s = v
+
+
+class FakeExpr:
+    """what the CPython parser hands over for the docstring statement (an input here)"""
+    def __init__(self, lineno, end_lineno, value):
+        self.lineno = lineno
+        self.end_lineno = end_lineno
+        self.value = FakeConst(value)
+
+
 class Start(Harness):
-    witnesses = ('prefixed_multiline', 'comment_with_other_quotes', 'single_line')
+    witnesses = ('prefixed_multiline', 'comment_with_other_quotes', 'single_line', 'escaped_newline_in_multiline', 'escaped_newline_reaches_above_the_file',
+                 'lines_above')
 
     def __init__(self, job):
         instrumented()
@@ -74,46 +107,70 @@ class Start(Harness):
         self.prefix = z3.Int('prefix')
         self.trip = z3.Bool('double_quotes')
         self.nl = z3.Int('newlines_in_literal')
+        self.esc = z3.Int('escaped_newlines')
+        self.above = z3.Int('lines_above')
+        self.above_kind = z3.Int('kind_of_lines_above')
         self.hascmt = z3.Bool('has_comment')
         self.t0, c0 = SymStr.fresh('open_text', cap, 'a #\'"')
         self.t1, c1 = SymStr.fresh('close_text', cap, 'a #\'"')
         self.cm, c2 = SymStr.fresh('comment', cap + 1, 'a #\'"')
         self.base = c0 + c1 + c2 + [z3.Or(self.indent == 0, self.indent == 4), self.prefix >= 0, self.prefix < len(PREFIXES),
-                                    self.nl >= 0, self.nl < job['maxlines']]
+                                    self.nl >= 0, self.nl < job['maxlines'], self.esc >= 0, self.esc <= job.get('maxesc', 2),
+                                    self.above >= 0, self.above <= job.get('maxabove', 2), self.above_kind >= 0, self.above_kind < len(ABOVE)]
 
     def run(self, ex):
         from sea.core import SymBool, SymInt
-        from sea.symstr import spaces
         nl = int(SymInt(self.nl))
         dq = bool(SymBool(self.trip))
         trip = '"""' if dq else "'''"
         q = '"' if dq else "'"
         prefix = PREFIXES[int(SymInt(self.prefix))]
+        esc = int(SymInt(self.esc))
+        if prefix in ('r', 'R') and esc:
+            ex.assume(False)                             # a raw literal has no escapes
+        above = int(SymInt(self.above))
+        kind = int(SymInt(self.above_kind)) if above else 0
         hascmt = bool(SymBool(self.hascmt))
         # the literal's own quote character does not occur in its text (it would end it)
         for t in (self.t0, self.t1):
             ex.assume(z3.And([t.cs[k] != ord(q) for k in range(t.cap)]))
         ind = ' ' * int(SymInt(self.indent))          # forked: keeps every position before the texts concrete
         cmt = ('  #' + self.cm) if hascmt else ''
+        head = [ABOVE[kind].replace('Q', trip)] * above + ['def f():']
         if nl == 0:
-            lines = ['def f():', ind + prefix + trip + self.t0 + trip + cmt, '    return 1']
+            lines = head + [ind + prefix + trip + self.t0 + trip + cmt, '    return 1']
         else:
-            lines = ['def f():', ind + prefix + trip + self.t0] + ['    body'] * (nl - 1) + [ind + self.t1 + trip + cmt, '    return 1']
-        endpos = 1 + nl
-        start, stop = self.st.TopLevelVisitor('')._find_docstr_startpos_workaround(FakeDoc(nl), lines, endpos)
+            lines = head + [ind + prefix + trip + self.t0] + ['    body'] * (nl - 1) + [ind + self.t1 + trip + cmt, '    return 1']
+        first = above + 2                               # 1-based line of the opening quotes
+        node = FakeExpr(first, first + nl, FakeDoc(nl + esc))
+        vis = self.st.TopLevelVisitor('')
+        vis.sourcelines = lines
+        try:
+            start, stop = vis._docnode_line_workaround(node)
+        except Exception as e:
+            if esc and nl:
+                ex.witness('escaped_newline_reaches_above_the_file', True)
+            return {'no_exception_%s' % type(e).__name__: z3.BoolVal(False)}
         if nl >= 1 and prefix:
             ex.witness('prefixed_multiline', True)
         if hascmt:
             ex.witness('comment_with_other_quotes', zbool(self.cm.contains("'''" if dq else '"""')) if self.cm.cap >= 3 else True)
         if nl == 0:
             ex.witness('single_line', True)
-        return {'start_is_the_opening_line': zbool(start == 1), 'stop_is_after_the_closing_line': zbool(stop == endpos + 1)}
+        if nl and esc:
+            ex.witness('escaped_newline_in_multiline', True)
+            if above < esc:
+                ex.witness('escaped_newline_reaches_above_the_file', True)
+        if above:
+            ex.witness('lines_above', True)
+        return {'start_is_the_opening_line': zbool(start == first), 'end_is_the_closing_line': zbool(stop == first + nl)}
 
     def describe(self, model):
         def n(v):
             return model.eval(v, model_completion=True).as_long()
         return {'harness': 'start', 'indent': n(self.indent), 'prefix': PREFIXES[n(self.prefix)], 'double_quotes': z3.is_true(model.eval(self.trip, model_completion=True)),
-                'newlines': n(self.nl), 'open_text': self.t0.concrete(model), 'close_text': self.t1.concrete(model),
+                'newlines': n(self.nl), 'escaped_newlines': n(self.esc), 'lines_above': n(self.above), 'kind_of_lines_above': n(self.above_kind),
+                'open_text': self.t0.concrete(model), 'close_text': self.t1.concrete(model),
                 'comment': self.cm.concrete(model) if z3.is_true(model.eval(self.hascmt, model_completion=True)) else None}
 
 
@@ -284,7 +341,150 @@ class Real(Harness):
         return {'harness': 'real', 'lines': [MENU[n(v)] for v in self.tok], 'style': ['auto', 'google', 'freeform'][n(self.style)]}
 
 
+# ---------------------------------------------------------------- whole files (kind III)
+
+# lines of the docstring body; {i} is the line's own index (every line is distinct, any shift is seen)
+FMENU = ['', 'prose {i}', "joins with '\\n' text {i}", '>>> m{i} = 1', '>>> print({i})|{i}', 'Example:', 'prose {i} \\']
+FSTYLES = ['auto', 'google', 'freeform']
+FCONTAINERS = ['function', 'method', 'decorated']
+ESCAPING = (2, 6)     # menu lines whose escape changes the number of lines of the VALUE in a non-raw literal
+
+
+def file_source(c):
+    """skeleton -> (module text, callname)"""
+    trip = '"' * 3 if c['double_quotes'] else "'" * 3
+    cont = FCONTAINERS[c['container']]
+    head = ['x%d = 1' % i for i in range(c['lines_above'])]
+    if cont == 'method':
+        head += ['class K:', '    def f(self):']
+        ind = ' ' * 8
+        name = 'K.f'
+    elif cont == 'decorated':
+        head += ['import functools', '@functools.lru_cache(None)', 'def f():']
+        ind = ' ' * 4
+        name = 'f'
+    else:
+        head += ['def f():']
+        ind = ' ' * 4
+        name = 'f'
+    body = []
+    deeper = ''
+    for i, t in enumerate(c['lines']):
+        item = FMENU[t].replace('{i}', str(i))
+        for piece in item.split('|'):
+            body.append((ind + deeper + piece) if piece else '')
+        if t == 5:
+            deeper = '    '
+    if c['open_shares_line']:
+        first = ind + c['prefix'] + trip + 'summary'
+    else:
+        first = ind + c['prefix'] + trip
+    lines = head + [first] + body + [ind + trip, ind + 'return 1']
+    return '\n'.join(lines) + '\n', name
+
+
+def file_problems(core, c, path):
+    """runs the real static collection on the file; returns (problems, n examples, n parts)"""
+    import warnings
+    src, name = file_source(c)
+    with open(path, 'w') as f:
+        f.write(src)
+    flines = src.split('\n')
+    with warnings.catch_warnings(record=True):
+        warnings.simplefilter('always')
+        try:
+            exs = list(core.parse_doctestables(path, style=FSTYLES[c['style']], analysis='static'))
+        except Exception as e:
+            return ['collection raises %s: %s' % (type(e).__name__, e)], 0, 0
+    bad = []
+    nparts = 0
+    for e in exs:
+        e._parse()
+        for p in e._parts:
+            if not getattr(p, 'orig_lines', None):
+                continue
+            nparts += 1
+            idx = e.lineno + p.line_offset - 1
+            want = p.orig_lines[0].strip()
+            got = flines[idx].strip() if 0 <= idx < len(flines) else None
+            if got != want:
+                bad.append('%s: lineno %d + offset %d is file line %r, the part starts with %r' % (e.unique_callname, e.lineno, p.line_offset, got, want))
+    return bad, len(exs), nparts
+
+
+def file_known_class(c):
+    """K-C08-ESC: in a non-raw literal an escape that changes the number of lines of the value stands before an example"""
+    if c['prefix'] in ('r', 'R'):
+        return False
+    ls = c['lines']
+    for i, t in enumerate(ls):
+        if t in ESCAPING and any(u in (3, 4) for u in ls[i + 1:]):
+            return True
+    return False
+
+
+class File(Harness):
+    witnesses = ('escape_after_the_example', 'raw_docstring_with_backslash_n', 'google_block', 'two_parts', 'method_with_lines_above')
+
+    def __init__(self, job):
+        instrumented()
+        import tempfile
+        from xdoctest import core
+        self.core = core
+        self.job = job
+        K = job['k']
+        self.tok = [z3.Int('line%d' % i) for i in range(K)]
+        self.style = z3.Int('style')
+        self.cont = z3.Int('container')
+        self.above = z3.Int('lines_above')
+        self.raw = z3.Bool('raw_prefix')
+        self.dq = z3.Bool('double_quotes')
+        self.share = z3.Bool('open_shares_line')
+        self.base = [self.style >= 0, self.style <= 2, self.cont >= 0, self.cont < len(FCONTAINERS), z3.Or(self.above == 0, self.above == 2)]
+        for i in range(K):
+            self.base += [self.tok[i] >= 0, self.tok[i] < len(FMENU)]
+        # a trailing backslash on the last body line would escape the line break before the closing quotes: same class, keeps the skeleton simple
+        self.base += [self.tok[K - 1] != 6]
+        self.dir = tempfile.mkdtemp(prefix='xdv-c08f-')
+        self.n = 0
+        from sea import instrument
+        instrument.RT.STUBS['print'] = lambda *a, **k: None
+
+    def case(self, get_int, get_bool):
+        return {'harness': 'file', 'lines': [get_int(v) for v in self.tok], 'style': get_int(self.style), 'container': get_int(self.cont), 'lines_above': get_int(self.above),
+                'prefix': 'r' if get_bool(self.raw) else '', 'double_quotes': get_bool(self.dq), 'open_shares_line': get_bool(self.share)}
+
+    def run(self, ex):
+        import os
+        from sea.core import SymBool, SymInt
+        c = self.case(lambda v: int(SymInt(v)), lambda v: bool(SymBool(v)))
+        if 'K-C08-ESC' in self.job.get('exclude', []) and file_known_class(c):
+            return {'excluded_known_class': z3.BoolVal(True)}
+        self.n += 1
+        path = os.path.join(self.dir, 'm_c08_%d_%d.py' % (os.getpid(), self.n % 50))
+        bad, nex, nparts = file_problems(self.core, c, path)
+        self.last_error = bad
+        ls = c['lines']
+        if nex and not bad:
+            if c['prefix'] == '' and any(t in ESCAPING for t in ls) and not file_known_class(c):
+                ex.witness('escape_after_the_example', True)
+            if c['prefix'] == 'r' and 2 in ls:
+                ex.witness('raw_docstring_with_backslash_n', True)
+            if 5 in ls and c['style'] != 2:
+                ex.witness('google_block', True)
+            if nparts >= 2:
+                ex.witness('two_parts', True)
+            if c['container'] == 1 and c['lines_above']:
+                ex.witness('method_with_lines_above', True)
+        return {'every_reported_line_is_the_real_file_line': z3.BoolVal(not bad)}
+
+    def describe(self, model):
+        return self.case(lambda v: model.eval(v, model_completion=True).as_long(), lambda v: z3.is_true(model.eval(v, model_completion=True)))
+
+
 def build(job):
+    if job['harness'] == 'file':
+        return File(job)
     if job['harness'] == 'start':
         return Start(job)
     if job['harness'] == 'free':
@@ -312,14 +512,17 @@ def replay(job, cex):
         import tempfile
         from xdoctest import core
         trip = '"""' if cex['double_quotes'] else "'''"
-        ind = ' ' * 4         # a real function body is indented; the symbolic indent is replayed as given when possible
-        ind = ' ' * max(cex['indent'], 1)
+        ind = ' ' * max(cex['indent'], 1)     # a real function body is indented
         nl = cex['newlines']
         cm = ('  #' + cex['comment']) if cex['comment'] is not None else ''
+        escs = '\\n' * cex.get('escaped_newlines', 0)
+        head = [ABOVE[cex.get('kind_of_lines_above', 0)].replace('Q', trip)] * cex.get('lines_above', 0) + ['def f():']
         if nl == 0:
-            return {'reproduced': False, 'abstract': True, 'detail': 'single-line docstring: no doctest line to locate'}
-        body = [ind + cex['prefix'] + trip + cex['open_text']] + [ind + '>>> marker_%d = 1' % i for i in range(nl - 1)] + [ind + cex['close_text'] + trip + cm]
-        src = 'def f():\n' + '\n'.join(body) + '\n' + ind + 'return 1\n'
+            body = [ind + cex['prefix'] + trip + cex['open_text'] + escs + trip + cm]
+        else:
+            body = [ind + cex['prefix'] + trip + cex['open_text'] + escs] + [ind + '>>> marker_%d = 1' % i for i in range(nl - 1)] + [ind + cex['close_text'] + trip + cm]
+        src = '\n'.join(head + body + [ind + 'return 1']) + '\n'
+        first = len(head) + 1
         d = tempfile.mkdtemp(prefix='xdv-c08-')
         try:
             path = os.path.join(d, 'm_c08_replay.py')
@@ -330,11 +533,30 @@ def replay(job, cex):
             except SyntaxError as e:
                 return {'reproduced': False, 'abstract': True, 'detail': 'not valid python: %s' % e}
             from xdoctest import static_analysis
-            calldefs = static_analysis.parse_static_calldefs(fpath=path)
+            try:
+                calldefs = static_analysis.parse_static_calldefs(fpath=path)
+            except Exception as e:
+                return {'reproduced': True, 'detail': 'module %r: collection raises %s: %s' % (src, type(e).__name__, e), 'signature': 'C08:docstring-start:exception'}
             got = calldefs['f'].doclineno
-            return {'reproduced': got != 2, 'detail': 'module %r: doclineno=%r, the literal opens on line 2' % (src, got), 'signature': 'C08:docstring-start:prefix=%s' % cex['prefix']}
+            return {'reproduced': got != first, 'detail': 'module %r: doclineno=%r, the literal opens on line %d' % (src, got, first),
+                    'signature': 'C08:docstring-start:prefix=%s:escapes=%s' % (cex['prefix'], bool(escs))}
         finally:
             shutil.rmtree(d, ignore_errors=True)
+    if h == 'file':
+        import os
+        import shutil
+        import tempfile
+        from xdoctest import core
+        d = tempfile.mkdtemp(prefix='xdv-c08f-')
+        try:
+            bad, nex, nparts = file_problems(core, cex, os.path.join(d, 'm_c08_replay.py'))
+        finally:
+            shutil.rmtree(d, ignore_errors=True)
+        if bad and file_known_class(cex) and not any('raises' in b for b in bad):
+            sig = 'C08:escape-shifts-lines'
+        else:
+            sig = 'C08:file-lines:' + ('exception' if any('raises' in b for b in bad) else 'wrong-line')
+        return {'reproduced': bool(bad), 'detail': 'module %r style %s: %s' % (file_source(cex)[0], FSTYLES[cex['style']], bad), 'signature': sig}
     if h == 'free':
         from xdoctest import core
         lines = []
